@@ -273,6 +273,16 @@ func c04Check(key, msg []byte, chunks []int, sumPrefix []byte) (hGEp bool, err e
 			return false, fmt.Errorf("Verify accepted tag %x with bit %d flipped (correct %x, key=%x msg=%x)", bad, bit, want, key, msg)
 		}
 	}
+	if len(msg) <= 512 {
+		// structured multi-byte changes of the tag: periodic deltas, complement, swapped halves, rotations ...
+		for _, v := range structuredVariants(want[:], 0, 16) {
+			var bad [16]byte
+			copy(bad[:], v.b)
+			if poly1305.Verify(&bad, msg, &k) || verify(v.b) {
+				return false, fmt.Errorf("Verify accepted tag %x (%s of the correct tag %x, key=%x msg=%x)", v.b, v.name, want, key, msg)
+			}
+		}
+	}
 	if verify(want[:15]) || verify(append(clone(want[:]), 0)) || verify(nil) {
 		return false, fmt.Errorf("MAC.Verify accepted a tag of the wrong length (key=%x msg=%x)", key, msg)
 	}
